@@ -560,7 +560,28 @@ func (w *World) requestStop() {
 
 // ---- peers ------------------------------------------------------------------
 
+// magicAddrs: IPv4 peer addresses whose "ip:port" string has a CRC-32 (IEEE) at a
+// boundary of the integer ranges a hash may be squeezed through: 0x80000000,
+// 0x7fffffff, 0xffffffff, 0, 0x80000001 (found by exhaustive search over
+// 10.0-15.x.y:1024-65535). The source-address-hash balancer hashes exactly
+// that string.
+var magicAddrs = []struct {
+	ip   [4]byte
+	port int
+}{
+	{[4]byte{10, 11, 0, 30}, 7612}, {[4]byte{10, 14, 11, 178}, 52527}, // 0x80000000
+	{[4]byte{10, 1, 23, 52}, 62215}, {[4]byte{10, 3, 27, 108}, 2507}, // 0x7fffffff
+	{[4]byte{10, 11, 49, 232}, 26968}, {[4]byte{10, 1, 59, 72}, 58989}, // 0xffffffff
+	{[4]byte{10, 13, 5, 40}, 8143}, {[4]byte{10, 10, 38, 145}, 62551}, // 0
+	{[4]byte{10, 11, 17, 246}, 59516}, // 0x80000001
+}
+
 func (w *World) peerAddr(i int) unix.Sockaddr {
+	if i < len(w.p.Conns) && w.p.Cfg.Network == "tcp" {
+		if m := w.p.Conns[i].Magic; m > 0 && m <= len(magicAddrs) {
+			return &unix.SockaddrInet4{Port: magicAddrs[m-1].port, Addr: magicAddrs[m-1].ip}
+		}
+	}
 	j := i
 	if i < len(w.p.Conns) && w.p.Conns[i].AddrOf > 0 && w.p.Conns[i].AddrOf-1 < i {
 		j = w.p.Conns[i].AddrOf - 1 // re-use the address of an earlier peer
